@@ -67,6 +67,7 @@ type c04finding struct {
 }
 
 type c04ctx struct {
+	garbage  int
 	r        *Run
 	findings map[string]*c04finding
 	decodes  int
@@ -306,6 +307,30 @@ func c04Unmarshal(r *Run, c *c04ctx, viaReader bool) {
 	c.faults(r, stream, func(desc string, faulty []byte) {
 		c.decodeInto(faulty, dests, refMode, viaReader)
 	})
+	// arbitrary byte strings, derived from no valid stream: grammar-free sequences over the tag alphabet (what a
+	// peer speaking another protocol, or line noise, looks like to the decoder)
+	for i := 0; i < 120; i++ {
+		g := make([]byte, 1+r.Plan(40))
+		for j := range g {
+			g[j] = c04Dict[r.Plan(len(c04Dict))]
+		}
+		c.garbage++
+		c.decodeInto(g, dests, i%2 == 0, viaReader)
+	}
+	r.Param("garbage_strings", c.garbage)
+}
+
+// garbageStrings yields grammar-free byte strings over the tag alphabet, optionally behind a valid-looking prefix.
+func (c *c04ctx) garbageStrings(r *Run, n int, prefixes []string, f func(g []byte)) {
+	for i := 0; i < n; i++ {
+		g := []byte(prefixes[i%len(prefixes)])
+		for j, k := 0, 1+r.Plan(40); j < k; j++ {
+			g = append(g, c04Dict[r.Plan(len(c04Dict))])
+		}
+		c.garbage++
+		f(g)
+	}
+	r.Param("garbage_strings", c.garbage)
 }
 
 // prefixIsComplete reports whether stream[:k] is itself a complete encoding that
@@ -353,6 +378,10 @@ func c04Request(r *Run, c *c04ctx) {
 	c.faults(r, stream, func(desc string, faulty []byte) {
 		c.decodes++
 		c.guarded("service-request", faulty, func() { handle(faulty) })
+	})
+	c.garbageStrings(r, 150, []string{"", "C", `Cs2"fn"a`, `Cs2"va"a3{`, "H"}, func(g []byte) {
+		c.decodes++
+		c.guarded("service-request", g, func() { handle(g) })
 	})
 	// the service still works
 	var resp []byte
@@ -402,6 +431,16 @@ func c04Response(r *Run, c *c04ctx) {
 				client.Codec.Decode(faulty, cc)
 			})
 		}
+	})
+	c.garbageStrings(r, 150, []string{"", "R", "Ra2{", "E", "H", "Rm1{"}, func(g []byte) {
+		rt := rts[len(g)%len(rts)]
+		c.decodes++
+		c.guarded("client-response", g, func() {
+			cc := core.NewClientContext()
+			cc.ReturnType = rt
+			cc.Init(client)
+			client.Codec.Decode(g, cc)
+		})
 	})
 	_ = big.NewInt
 	_ = strings.Join
